@@ -2,6 +2,7 @@
 import json
 import sys
 
+from . import core
 from .query_replay import L, NOMAX, forest_of
 
 STYLE_NAMES = ("ascii", "cont", "contround", "double", "w1", "w3", "asciiclass")
@@ -199,6 +200,7 @@ def worker_init(repo, assertions=False):
     from . import nodes  # noqa
 
 
+@core.safe_worker
 def replay_chunk(args):
     lines, base = args
     out = {"n": 0, "vectors": 0, "attention": [], "dropped": 0, "reprs": 0}
@@ -225,6 +227,7 @@ def replay_chunk(args):
     return out
 
 
+@core.safe_worker
 def replay_chunk_adv(args):
     """C17: the same vectors on adversarial node classes; a vector counts only if the plain class renders it as specified."""
     lines, base, families = args
